@@ -220,6 +220,7 @@ package parser
 //@ func (*lexer).scanQuote
 //@   site SQ = call parser.(*lexer).read#2
 //@   loop "#1" step[C15] a-character-inside-single-quotes-is-stored: site(SQ) && len(l.b) > at(SQ, len(l.b))
+//@   loop "#1" step[C07 C15] the-first-single-quote-ends-the-quotation: siteret(SQ) != '\''
 //@   assert[C15] at call strings.(*Builder).WriteRune#1: a-character-inside-single-quotes-is-copied-as-read: arg1 == siteret(SQ)
 //@   assert[C04] at call parser.(*lexer).mark#2: a-literal-is-closed-before-the-mark-moves: l.b == ""
 //@   assert[C04] at call parser.(*lexer).mark#3: a-literal-is-closed-before-the-mark-moves: l.b == ""
@@ -507,6 +508,9 @@ package parser
 //@   ensures[C03 C07 C08] delimiter-line-is-a-whole-line-equal-to-the-delimiter: result ==> site(COL) && siteret(COL) == 1 && site(LINE) && (siteret(LINE) == delim || (r.Op == "<<-" && site(TABS) && sitearg(TABS, 0) == siteret(LINE) && sitearg(TABS, 1) == "\t" && siteret(TABS) == delim))
 //@   ensures[C08] partition: result ==> r.Heredoc == old(l.word)[:i] && r.Delim == old(l.word)[i:] && 0 <= i && i < old(len(l.word)) && len(l.word) == 0
 //@   ensures[C08] nothing-moved: !result ==> l.word == old(l.word)
+// Splitting the pending word into body and delimiter line changes no part of it:
+// texts and positions of the literals stay as they were read.
+//@   preserves[C04 C08] F.ast.Lit.* F.ast.Quote.* F.ast.ParamExp.* F.ast.CmdSubst.* F.ast.ArithExp.*
 //@   loop "for i := len(l.word) - 1; i >= 0; i--" invariant i < len(l.word)
 
 // The nested parse of a command substitution returned without an error: the
